@@ -5,6 +5,7 @@ package main
 import (
 	"fmt"
 	"os"
+	"regexp"
 	"path/filepath"
 	"sort"
 	"strconv"
@@ -41,7 +42,10 @@ type (
 		Fun  string
 		Args []CExpr
 	}
-	COld   struct{ X CExpr }
+	COld   struct {
+		X     CExpr
+		Label string
+	}
 	CQuant struct {
 		Forall bool
 		Vars   []CParam
@@ -389,7 +393,12 @@ func (p *parser) parsePrimary() CExpr {
 			p.expect("(")
 			x := p.parseExpr()
 			p.expect(")")
-			return COld{x}
+			return COld{x, ""}
+		case "acq":
+			p.expect("(")
+			x := p.parseExpr()
+			p.expect(")")
+			return COld{x, "acq"}
 		case "ite":
 			p.expect("(")
 			c := p.parseExpr()
@@ -435,6 +444,7 @@ type Clause struct {
 	Src   string
 	Expr  CExpr
 	Props []string
+	Using []string // labels of quantified assumptions relevant for proving this clause (others are hidden first)
 	File  string
 	Line  int
 }
@@ -460,6 +470,12 @@ type FuncContract struct {
 	ResultsAs []string
 	IsIface   bool
 	FrameStrict bool
+	GhostAssigns []GhostAssign
+}
+
+type GhostAssign struct {
+	LHS, RHS CExpr
+	Src      string
 }
 
 type GhostField struct {
@@ -523,6 +539,8 @@ func NewContracts() *Contracts {
 		Fns: map[string]*SpecFn{}, GhostVars: map[string]*GhostVar{}, ExternText: map[string]string{},
 	}
 }
+
+var ghostAssignRe = regexp.MustCompile(`[^=!<>]\s=\s[^=]`)
 
 var clauseKeywords = map[string]bool{
 	"func": true, "loop": true, "type": true, "pred": true, "fn": true, "axiom": true, "lemma": true, "iface": true,
@@ -661,7 +679,17 @@ func (c *Contracts) LoadFile(path, defaultPkg string, extern bool) error {
 		if err != nil {
 			return nil, fmt.Errorf("%s:%d: %v", path, r.line, err)
 		}
-		return &Clause{Kind: kind, Label: label, Src: rest, Expr: e, Props: props, File: path, Line: r.line}, nil
+		var using []string
+		if i := strings.Index(label, ";"); i >= 0 {
+			u := strings.TrimSpace(label[i+1:])
+			label = strings.TrimSpace(label[:i])
+			u = strings.TrimSpace(strings.TrimPrefix(u, "using"))
+			using = strings.Fields(strings.ReplaceAll(u, ",", " "))
+			if len(using) == 0 {
+				using = []string{"-"}
+			}
+		}
+		return &Clause{Kind: kind, Label: label, Src: rest, Expr: e, Props: props, Using: using, File: path, Line: r.line}, nil
 	}
 	for _, r := range raws {
 		switch r.kw {
@@ -777,6 +805,22 @@ func (c *Contracts) LoadFile(path, defaultPkg string, extern bool) error {
 				curF.Props = append(curF.Props, ps...)
 			}
 		case "ghost":
+			if curF != nil {
+				m := ghostAssignRe.FindStringIndex(r.text)
+				if m == nil {
+					return fmt.Errorf("%s:%d: ghost <lvalue> = <expr>", path, r.line)
+				}
+				lhs, err := ParseExpr(r.text[:m[0]+1])
+				if err != nil {
+					return fmt.Errorf("%s:%d: %v", path, r.line, err)
+				}
+				rhs, err := ParseExpr(r.text[m[1]-1:])
+				if err != nil {
+					return fmt.Errorf("%s:%d: %v", path, r.line, err)
+				}
+				curF.GhostAssigns = append(curF.GhostAssigns, GhostAssign{lhs, rhs, r.text})
+				break
+			}
 			if curT == nil {
 				return fmt.Errorf("%s:%d: ghost field outside type", path, r.line)
 			}
